@@ -71,6 +71,28 @@ theorem mk'_CInv {T : Tun} (hT : TunOK T) (F : SecFns ρ) (hra : Bool) (h k : Na
     CInv T hra h (Compactor.mk' T F hra h k) :=
   ⟨rfl, rfl, hT.sec1, hk, fun _ => by simp [Compactor.mk', Sorted]⟩
 
+theorem mkC_fields (T : Tun) (F : SecFns ρ) (hra : Bool) (lg k : Nat) (d : Bool) :
+    (Compactor.mkC T F hra lg k d).items = [] ∧ (Compactor.mkC T F hra lg k d).entered = [] ∧
+    (Compactor.mkC T F hra lg k d).lgWeight = lg ∧ (Compactor.mkC T F hra lg k d).hra = hra ∧
+    (Compactor.mkC T F hra lg k d).numSections = T.initSections ∧ (Compactor.mkC T F hra lg k d).sectionSize = k ∧
+    (Compactor.mkC T F hra lg k d).state = 0 ∧ (Compactor.mkC T F hra lg k d).sorted = true ∧
+    (Compactor.mkC T F hra lg k d).ssRaw = F.ofNat k ∧ (T.initCoinRandom = true → (Compactor.mkC T F hra lg k d).rnd = true ∧ (Compactor.mkC T F hra lg k d).coin = d) ∧
+    (T.initCoinRandom = false → Compactor.mkC T F hra lg k d = Compactor.mk' T F hra lg k) := by
+  unfold Compactor.mkC; split <;> simp_all [Compactor.mk']
+
+theorem mkC_nomCap (T : Tun) (F : SecFns ρ) (hra : Bool) (lg k : Nat) (d : Bool) :
+    (Compactor.mkC T F hra lg k d).nomCap T = T.multiplier * T.initSections * k := by
+  have := mkC_fields T F hra lg k d
+  simp [Compactor.nomCap, this.2.2.2.2.1, this.2.2.2.2.2.1]
+
+theorem mkC_CInv {T : Tun} (hT : TunOK T) (F : SecFns ρ) (hra : Bool) (h k : Nat) (hk : 2 ≤ k) (d : Bool) :
+    CInv T hra h (Compactor.mkC T F hra h k d) := by
+  obtain ⟨a1, _, a3, a4, a5, a6, _⟩ := mkC_fields T F hra h k d
+  exact ⟨a3, a4, by rw [a5]; exact hT.sec1, by rw [a6]; exact hk, fun _ => by rw [a1]; simp [Sorted]⟩
+
+theorem drawIf_throws (a : Acc) (b : Bool) (lvl : Nat) : (a.drawIf b lvl).throws = a.throws := by
+  cases b <;> simp [Acc.drawIf, Acc.draw]
+
 /-! ### the loop -/
 
 theorem afterCompact_throws (acc : Acc) (lvl : Nat) (fresh oc ok : Bool) (h : ok = true) :
@@ -126,7 +148,7 @@ theorem compressLoop_spec {T : Tun} (hT : TunOK T) (F : SecFns ρ) (hra : Bool) 
       obtain ⟨hc, hrest⟩ := hinv
       obtain ⟨hcne, hrne⟩ := AllNE_cons.1 hne
       simp only [sumItems_cons, sumCap_cons] at hr hm
-      simp only [compressLoop, sortIf0, nextOf, ctrGrow, ctrAfter]
+      simp only [compressLoop, sortIf0, nextOf, ctrGrow, ctrAfter, Acc.growDraw]
       split
       · rename_i hfull
         simp only [Compactor.numItems, ge_iff_le] at hfull
@@ -146,23 +168,25 @@ theorem compressLoop_spec {T : Tun} (hT : TunOK T) (F : SecFns ρ) (hra : Bool) 
         | nil =>
           -- top level: grow
           simp only [List.isEmpty_nil, if_true, List.tail_nil]
-          have hnx := mk'_CInv hT F hra (h + 1) k hk
-          have sp := compact_spec hT F acc.peek hc1 hs1 hnx hfull1
-          have hnxcap := compact_nxt_nomCap T F (if h = 0 then c.sort else c) (Compactor.mk' T F hra (h + 1) k) acc.peek
-          have hnxlg := compact_nxt_lg T F (if h = 0 then c.sort else c) (Compactor.mk' T F hra (h + 1) k) acc.peek
-          generalize hr' : (if h = 0 then c.sort else c).compact T F (Compactor.mk' T F hra (h + 1) k) acc.peek = r at sp hnxcap hnxlg
-          have hnx0 : (Compactor.mk' T F hra (h + 1) k).items.length = 0 := rfl
+          have hnx := mkC_CInv hT F hra (h + 1) k hk acc.peek
+          have hthr1 := drawIf_throws acc T.initCoinRandom (h + 1)
+          generalize acc.drawIf T.initCoinRandom (h + 1) = acc1 at hthr1 ⊢
+          have sp := compact_spec hT F acc1.peek hc1 hs1 hnx hfull1
+          have hnxcap := compact_nxt_nomCap T F (if h = 0 then c.sort else c) (Compactor.mkC T F hra (h + 1) k acc.peek) acc1.peek
+          have hnxlg := compact_nxt_lg T F (if h = 0 then c.sort else c) (Compactor.mkC T F hra (h + 1) k acc.peek) acc1.peek
+          generalize hr' : (if h = 0 then c.sort else c).compact T F (Compactor.mkC T F hra (h + 1) k acc.peek) acc1.peek = r at sp hnxcap hnxlg
+          have hnx0 : (Compactor.mkC T F hra (h + 1) k acc.peek).items.length = 0 := by rw [(mkC_fields T F hra (h + 1) k acc.peek).1]; rfl
           have hlenN := sp.lenNxt; rw [hnx0] at hlenN
           have hnxtne : r.nxt.items ≠ [] := by
             intro e; rw [e] at hlenN; have := sp.num1; simp at hlenN; omega
           have hR : ctr.retained - r.num = (R0 + r.cur.items.length) + sumItems (r.nxt :: ([] : List (Compactor ρ))) := by
             have := sp.lenCur; simp only [sumItems_cons, sumItems_nil] at *; omega
-          have hM : ctr.maxNom + (Compactor.mk' T F hra (h + 1) k).nomCap T + r.capNew - r.capOld
+          have hM : ctr.maxNom + (Compactor.mkC T F hra (h + 1) k acc.peek).nomCap T + r.capNew - r.capOld
               = (M0 + r.cur.nomCap T) + sumCap T (r.nxt :: ([] : List (Compactor ρ))) := by
             rw [sp.capOld, sp.capNew, hcap1]; simp only [sumCap_cons, sumCap_nil] at *; omega
           have htw : totalW (r.cur :: r.nxt :: ([] : List (Compactor ρ))) = totalW (c :: ([] : List (Compactor ρ))) := by
             simp only [totalW_cons, totalW_nil, sp.cur.lg, hnxlg, hc.lg]
-            have : (Compactor.mk' T F hra (h + 1) k).lgWeight = h + 1 := rfl
+            have : (Compactor.mkC T F hra (h + 1) k acc.peek).lgWeight = h + 1 := (mkC_fields T F hra (h + 1) k acc.peek).2.2.1
             rw [this, Nat.pow_succ]
             have e := pow_step r.cur.items.length c.items.length r.num 0 (2 ^ h) (by have := sp.lenCur; omega)
             rw [hlenN]; simp only [Nat.zero_add, Nat.zero_mul, Nat.add_zero] at e ⊢; exact e
@@ -172,16 +196,16 @@ theorem compressLoop_spec {T : Tun} (hT : TunOK T) (F : SecFns ρ) (hra : Bool) 
             · exact AllNE_cons.2 ⟨sp.curNe, AllNE_cons.2 ⟨hnxtne, AllNE_nil⟩⟩
             · simp only [sumItems_cons, sumItems_nil] at *; omega
             · simp only [sumCap_cons, sumCap_nil] at *; omega
-            · exact afterCompact_throws acc _ _ _ _ sp.ok
+            · rw [← hthr1]; exact afterCompact_throws acc1 _ _ _ _ sp.ok
             · simp [sp.curEntered, hent1]
-          · have IH := ih (h + 1) (r.nxt :: []) ⟨ctr.retained - r.num, ctr.maxNom + (Compactor.mk' T F hra (h + 1) k).nomCap T + r.capNew - r.capOld⟩
-              (acc.afterCompact (if h = 0 then c.sort else c).lgWeight r.fresh r.oddConst r.rangeOk)
+          · have IH := ih (h + 1) (r.nxt :: []) ⟨ctr.retained - r.num, ctr.maxNom + (Compactor.mkC T F hra (h + 1) k acc.peek).nomCap T + r.capNew - r.capOld⟩
+              (acc1.afterCompact (if h = 0 then c.sort else c).lgWeight r.fresh r.oddConst r.rangeOk)
               (R0 + r.cur.items.length) (M0 + r.cur.nomCap T) ⟨sp.nx, trivial⟩ (AllNE_cons.2 ⟨hnxtne, AllNE_nil⟩) hR hM
             refine ⟨⟨sp.cur, IH.inv⟩, AllNE_cons.2 ⟨sp.curNe, IH.ne⟩, ?_, ?_, ?_, by simp, ?_, ?_, ?_, ?_⟩
             · have := IH.ret; simp only [sumItems_cons] at *; omega
             · have := IH.cap; simp only [sumCap_cons] at *; omega
             · have := IH.tw; simp only [totalW_cons] at this htw ⊢; omega
-            · rw [IH.throws]; exact afterCompact_throws acc _ _ _ _ sp.ok
+            · rw [IH.throws]; rw [← hthr1]; exact afterCompact_throws acc1 _ _ _ _ sp.ok
             · simp [sp.curEntered, hent1]
             · have := IH.len; simp at this ⊢ <;> omega
             · intro h1; exfalso
